@@ -23,6 +23,7 @@ import (
 	"time"
 
 	"github.com/RoaringBitmap/roaring/v2"
+	"github.com/grafana/regexp"
 	"github.com/sourcegraph/zoekt"
 	"github.com/sourcegraph/zoekt/query"
 	"github.com/sourcegraph/zoekt/search"
@@ -36,6 +37,7 @@ type detail struct {
 	Ctx     []*q1q.Shard `json:"ctx,omitempty"`
 	Q       string       `json:"q,omitempty"`
 	Dir     bool         `json:"dir,omitempty"`     // search/list: through NewDirectorySearcher (else loaded shards)
+	Prev    []*q1q.Shard `json:"prev,omitempty"`    // search/list after a reload: the corpus that was loaded before, under the same keys
 	Entries [][]entry    `json:"entries,omitempty"` // agg
 	Note    string       `json:"note,omitempty"`
 }
@@ -114,7 +116,11 @@ func (rn *runner) sel(d detail) {
 
 // ---------------------------------------------------------------- search / list on real shards
 
+func shardKey(i int) string { return fmt.Sprintf("shard%03d", i) }
+
 type realCorpus struct {
+	loaded  int          // number of keys currently loaded (in-memory stack only)
+	prev    []*q1q.Shard // set after a reload: what was loaded before
 	dir     string
 	actual  []*q1q.Shard
 	paths   []string
@@ -152,18 +158,95 @@ func (rn *runner) build(ctx []*q1q.Shard, viaDir bool) *realCorpus {
 		rc.closeFn = ss.Close
 	} else {
 		m := map[string]zoekt.Searcher{}
-		for _, p := range rc.paths {
+		for i, p := range rc.paths {
 			s, err := q1q.OpenShard(p)
 			if err != nil {
 				panic(err)
 			}
-			m[p] = s
+			m[shardKey(i)] = s
 		}
+		rc.loaded = len(rc.paths)
 		ss := search.VerifShardedSearcherC18(m)
 		rc.sharded = ss
 		rc.closeFn = ss.Close
 	}
 	return rc
+}
+
+// reload replaces the loaded shards by those of ctx2 under the same keys (shard i of ctx2 replaces shard i; surplus
+// keys are dropped, new ones added), the way the directory watcher's loader does after a re-index, and makes the
+// per-shard searchers and descriptions follow. Only for the in-memory stack (deterministic, no watcher timing).
+func (rn *runner) reload(rc *realCorpus, ctx1, ctx2 []*q1q.Shard) {
+	rn.n++
+	dir := filepath.Join(rn.work, fmt.Sprintf("c18-corpus-%d", rn.n))
+	if err := os.MkdirAll(dir, 0o755); err != nil {
+		panic(err)
+	}
+	for _, s := range rc.single {
+		s.Close()
+	}
+	os.RemoveAll(rc.dir)
+	rc.dir, rc.actual, rc.paths, rc.single = dir, nil, nil, nil
+	m := map[string]zoekt.Searcher{}
+	for i, s := range ctx2 {
+		p, actual, err := q1q.BuildShardFile(dir, fmt.Sprintf("s%d", i), s)
+		if err != nil {
+			panic(fmt.Sprintf("build shard %d: %v", i, err))
+		}
+		rc.paths = append(rc.paths, p)
+		rc.actual = append(rc.actual, actual)
+		one, err := q1q.OpenShard(p)
+		if err != nil {
+			panic(err)
+		}
+		rc.single = append(rc.single, one)
+		two, err := q1q.OpenShard(p)
+		if err != nil {
+			panic(err)
+		}
+		m[shardKey(i)] = two
+	}
+	for i := len(ctx2); i < rc.loaded; i++ {
+		m[shardKey(i)] = nil
+	}
+	if !search.VerifShardedReplaceC18(rc.sharded, m) {
+		panic("not the in-memory searcher stack")
+	}
+	rc.loaded = len(ctx2)
+	rc.prev = ctx1
+}
+
+// reindexed returns the corpus after some repositories were re-indexed: same names and ids, new branch lists, raw
+// config and metadata (and documents moved to the new branches); sometimes a shard disappears or a new one arrives.
+func reindexed(r *gen.Rand, sg *q1q.SGen, ctx []*q1q.Shard) []*q1q.Shard {
+	var out []*q1q.Shard
+	for _, s := range ctx {
+		c := *s
+		c.Repos = append([]q1q.Repo(nil), s.Repos...)
+		c.Docs = append([]q1q.Doc(nil), s.Docs...)
+		for i := range c.Repos {
+			if r.Chance(2, 3) {
+				n := sg.Repo(c.Repos[i].Name, c.Repos[i].ID)
+				n.Tombstone = c.Repos[i].Tombstone
+				c.Repos[i] = n
+			}
+		}
+		for j := range c.Docs {
+			d := c.Docs[j]
+			d.Branches = nil
+			for b := range c.Repos[d.Repo].Branches {
+				if r.Chance(2, 3) {
+					d.Branches = append(d.Branches, b)
+				}
+			}
+			c.Docs[j] = d
+		}
+		out = append(out, &c)
+	}
+	if len(out) > 1 && r.Chance(1, 4) {
+		out = out[:len(out)-1]
+	}
+	return out
 }
 
 func (rc *realCorpus) close() {
@@ -237,7 +320,7 @@ func (rn *runner) searchList(rc *realCorpus, ctx []*q1q.Shard, q query.Q, viaDir
 	setHeadFirst(rc.actual)
 	u := q1q.UniverseOf(rc.actual)
 	wire := u.EncQ(q)
-	det := detail{Op: "search", Ctx: ctx, Q: wire, Dir: viaDir, Note: note}
+	det := detail{Op: "search", Ctx: ctx, Prev: rc.prev, Q: wire, Dir: viaDir, Note: note}
 
 	// ---- search
 	in := "search " + encShards(rc.actual) + " " + wire
@@ -652,7 +735,13 @@ func (rn *runner) replay(d detail) {
 		if err != nil {
 			panic(err)
 		}
-		rc := rn.build(d.Ctx, d.Dir)
+		var rc *realCorpus
+		if d.Prev != nil {
+			rc = rn.build(d.Prev, false)
+			rn.reload(rc, d.Prev, d.Ctx)
+		} else {
+			rc = rn.build(d.Ctx, d.Dir)
+		}
 		rn.searchList(rc, d.Ctx, q, d.Dir, d.Note)
 		rc.close()
 	default:
@@ -1017,6 +1106,38 @@ func main() {
 				w.Count("typerepo-siblings:"+cl, 1)
 			}
 			rn.searchList(rc, ctx, q, viaDir, "")
+		}
+		// history: some repositories are re-indexed (same names and ids; new branches, raw config, metadata) and the
+		// shards are reloaded under the same keys; the answers must be those of the shards that are loaded NOW
+		if !viaDir {
+			ctx2 := reindexed(r, sg, ctx)
+			rn.reload(rc, ctx, ctx2)
+			w.Count("history:reloaded-corpora", 1)
+			var allIDs []uint32
+			for _, s := range ctx2 {
+				for _, rp := range s.Repos {
+					allIDs = append(allIDs, rp.ID)
+				}
+			}
+			for k := 0; k < 24; k++ {
+				q := topQuery(r, qg, true)
+				switch k % 4 {
+				case 0: // metadata filter at the top level
+					q = &query.And{Children: []query.Q{&query.Meta{Field: gen.Pick(r, q1q.MetaFields), Value: regexp.MustCompile(gen.Pick(r, q1q.ValRegexps))}, qg.Tree(1)}}
+				case 1: // branch-repository list at the top level
+					bm := roaring.New()
+					for _, id := range allIDs {
+						if r.Chance(3, 4) {
+							bm.Add(id)
+						}
+					}
+					q = &query.And{Children: []query.Q{&query.BranchesRepos{List: []query.BranchRepos{{Branch: gen.Pick(r, []string{"HEAD", "HEAD", "main", "dev"}), Repos: bm}}}, qg.Tree(1)}}
+				case 2:
+					q = &query.Meta{Field: gen.Pick(r, q1q.MetaFields), Value: regexp.MustCompile(gen.Pick(r, q1q.ValRegexps))}
+				}
+				rn.searchList(rc, ctx2, q, false, "")
+				w.Count("history:queries-after-reload", 1)
+			}
 		}
 		w.Count("ms:queries", int(time.Since(t0).Milliseconds()))
 		t0 = time.Now()
